@@ -12,7 +12,7 @@ import (
 var keepLabels = []string{"keepmask", "values", "opt:DedupValue"}
 
 func checkC02(p *Program, r *Report) {
-	r.Explanation = "Decided for all key/value lists: the build-side mechanism RangeGet rests on — branch positions are computed over all keys of a node's range and only labels are filtered by the keep mask. In the labelled flow analysis of the builder the bit position handed to bmtree.PathsOf/PathOf (where labels are cut and children are split) carries no keep-mask/value/DedupValue label given the node's key range (work-list barrier), the same SSA value is the prefix end recorded for the node, and sigbits.New receives exactly the caller's key slice (not a filtered copy). On the query side index.SlimIndex.RangeGet obtains its offset from (*SlimTrie).RangeGet, and RangeGet/Search share one three-way descent. (keepmask) with de-duplication on, the keep mask is filled only with the constant true or, for every index from 1 in steps of 1 and unconditionally, with the comparison of values[i-1] and values[i]: values are not sorted, so no method that skips adjacent pairs can find the first record of every run."
+	r.Explanation = "Decided for all key/value lists: the build-side mechanism RangeGet rests on — branch positions are computed over all keys of a node's range and only labels are filtered by the keep mask. In the labelled flow analysis of the builder the bit position handed to bmtree.PathsOf/PathOf (where labels are cut and children are split) carries no keep-mask/value/DedupValue label given the node's key range (work-list barrier), the same SSA value is the prefix end recorded for the node, and sigbits.New receives exactly the caller's key slice (not a filtered copy). On the query side index.SlimIndex.RangeGet obtains its offset from (*SlimTrie).RangeGet, and RangeGet/Search share one three-way descent. (keepmask) with de-duplication on, the keep mask is filled only with the constant true or, for every index from 1 in steps of 1 and unconditionally, with the comparison of values[i-1] and values[i]: values are not sorted, so no method that skips adjacent pairs can find the first record of every run. (encode-each) every element of the encoded value list is the result of Encode on the encoder for the value at the loop index of its iteration, appended unconditionally — the bytes compared by the keep mask and stored in the leaves are the encoder's output for that record, never another record's bytes re-used under an equality test of raw values."
 	r.NotCovered = "The three-way search itself (left-neighbour selection, right-most descent) depends on rank values at run time."
 	r.Trusted = []string{"go/ssa; pure-function summaries for openacid/low"}
 	bf := newBuilderFlow(p)
@@ -108,6 +108,7 @@ func checkC02(p *Program, r *Report) {
 	checkRangeRouting(p, r)
 	checkVLenWidth(p, r, "C02.vlen-width")
 	checkKeepMask(p, r)
+	checkEncodeEach(p, r)
 }
 
 // checkRangeRouting: index.RangeGet -> SlimTrie.RangeGet; RangeGet and Search
@@ -317,4 +318,126 @@ func checkKeepMask(p *Program, r *Report) {
 		bad = append(bad, "no store into the mask compares a record's value with its predecessor's")
 	}
 	r.Check(len(bad) == 0, construct, p.Pos(KF.Pos()), "every entry is true or values[i-1] != values[i] for i = 1..n-1, step 1, unconditional", strings.Join(dedupStrings(sortStr(bad)), "; "))
+}
+
+// checkEncodeEach (C02.encode-each): the encoded value of record i is the
+// encoder's output for record i. In the function that turns the caller's
+// values into [][]byte with the Encoder, every element appended to the result
+// is the result of an Encode call on the encoder whose argument is computed
+// from the loop index of that iteration, appended unconditionally. Sharing or
+// re-using another record's bytes under some equality test of the raw values
+// (Go == is not bit identity: +0.0 == -0.0, NaN != NaN) changes which records
+// are de-duplicated and what RangeGet returns.
+func checkEncodeEach(p *Program, r *Report) {
+	r.Rule("C02.encode-each", "SSA", "every record's value bytes are the encoder's output for that record", 1)
+	var V *ssa.Function
+	var encPrm *ssa.Parameter
+	for _, f := range p.FuncsOf(triePath) {
+		if !trieScope(f) || f.Synthetic != "" || f.Signature.Results().Len() != 1 {
+			continue
+		}
+		sl, ok := f.Signature.Results().At(0).Type().Underlying().(*types.Slice)
+		if !ok || !isByteSlice(sl.Elem()) {
+			continue
+		}
+		for _, prm := range f.Params {
+			if isNamed(prm.Type(), encPath, "Encoder") {
+				V, encPrm = f, prm
+			}
+		}
+	}
+	if V == nil {
+		r.Unk("value encoding loop", "", "no function of package trie turns values into [][]byte with an encode.Encoder (anchor not found)")
+		return
+	}
+	r.Func(shortFn(V))
+	var bad []string
+	nApp := 0
+	var dependsOn func(v ssa.Value, target ssa.Value, d int) bool
+	dependsOn = func(v ssa.Value, target ssa.Value, d int) bool {
+		if v == target {
+			return true
+		}
+		if d > 8 || v == nil {
+			return false
+		}
+		if in, ok := v.(ssa.Instruction); ok {
+			if _, isPhi := v.(*ssa.Phi); isPhi {
+				return false
+			}
+			var ops []*ssa.Value
+			for _, op := range in.Operands(ops) {
+				if op != nil && *op != nil && dependsOn(*op, target, d+1) {
+					return true
+				}
+			}
+		}
+		return false
+	}
+	instrsOf(V, func(b *ssa.BasicBlock, in ssa.Instruction) {
+		call, ok := in.(*ssa.Call)
+		if !ok {
+			return
+		}
+		bi, ok := call.Call.Value.(*ssa.Builtin)
+		if !ok || bi.Name() != "append" || len(call.Call.Args) != 2 {
+			return
+		}
+		sl, ok := call.Type().Underlying().(*types.Slice)
+		if !ok || !isByteSlice(sl.Elem()) {
+			return
+		}
+		nApp++
+		header := loopHeaderOf(b)
+		if header == nil {
+			bad = append(bad, "an element is appended outside the record loop at "+p.Pos(call.Pos()))
+			return
+		}
+		var idx *ssa.Phi
+		for _, hin := range header.Instrs {
+			if ph, ok := hin.(*ssa.Phi); ok && isIntType(ph.Type()) {
+				idx = ph
+			}
+		}
+		// appended elements: stores into the varargs array
+		va, ok := call.Call.Args[1].(*ssa.Slice)
+		var elems []ssa.Value
+		if ok {
+			if al, ok := va.X.(*ssa.Alloc); ok {
+				for _, ref := range *al.Referrers() {
+					if ia, ok := ref.(*ssa.IndexAddr); ok {
+						for _, r2 := range *ia.Referrers() {
+							if st, ok := r2.(*ssa.Store); ok {
+								elems = append(elems, st.Val)
+							}
+						}
+					}
+				}
+			}
+		}
+		if len(elems) == 0 {
+			bad = append(bad, "the elements appended at "+p.Pos(call.Pos())+" cannot be identified (another slice is appended wholesale)")
+			return
+		}
+		for _, el := range elems {
+			ec, ok := el.(*ssa.Call)
+			if !ok || !ec.Call.IsInvoke() || ec.Call.Method.Name() != "Encode" || ec.Call.Value != ssa.Value(encPrm) {
+				bad = append(bad, "the bytes appended at "+p.Pos(call.Pos())+" are not the result of Encode on the encoder (another record's bytes are re-used)")
+				continue
+			}
+			if idx == nil || len(ec.Call.Args) != 1 || !dependsOn(ec.Call.Args[0], idx, 0) {
+				bad = append(bad, "the value encoded at "+p.Pos(ec.Pos())+" is not taken at the loop index of its iteration")
+			}
+		}
+		for i := range header.Preds {
+			pred := header.Preds[i]
+			if header.Dominates(pred) && !b.Dominates(pred) {
+				bad = append(bad, "the append at "+p.Pos(call.Pos())+" is skipped on some iterations")
+			}
+		}
+	})
+	if nApp == 0 {
+		bad = append(bad, "no append into the result found")
+	}
+	r.Check(len(bad) == 0, "value bytes built by "+shortFn(V), p.Pos(V.Pos()), fmt.Sprintf("%d append(s), each Encode(value at the loop index), unconditional", nApp), strings.Join(dedupStrings(sortStr(bad)), "; "))
 }
